@@ -154,6 +154,90 @@ CLAIMED = {
         "note": "clvmr dialect flags in MEMPOOL_MODE are not analysed",
         "technique": _T + "effect classification over region paths + path-set inclusion per flag",
     },
+    "C07": {
+        "text": "Decides: parse_spends (the Rust back-end of the legacy ROM path) and the native loop of run_block_generator2 agree on "
+                "taking first(output) as the spend list, strict nil termination, the spend-count guard, the roles routed into "
+                "process_single_spend, the post-loop sequence validate_conditions -> validate_signature -> validated_signature and "
+                "the cost formula; both paths apply check_generator_quote before and check_generator_node after decoding; "
+                "setup_generator_args rejects block references under SIMPLE_GENERATOR; extract_n::<N> arities. Does not decide "
+                "equality of the two paths' results (the legacy half runs inside the CLVM ROM).",
+        "design_ref": "DESIGN.md 3/C07",
+        "note": "trusted: ROM_BOOTSTRAP_GENERATOR (CLVM byte-code), clvmr run_program and deserialisers",
+        "technique": _T + "sibling agreement of two loops (guards, role routing, call order) + must-pass-through",
+    },
+    "C08": {
+        "text": "Decides: run_spendbundle and run_block_generator2 run the same per-spend sequence with the same role mapping and the "
+                "same post-loop validation; build_generator, BlockBuilder::add_spend_bundles and InternedBlockBuilder construct the "
+                "spend item with the same cons order (parent, puzzle, amount, solution) from the same sources; clvm_bytes_len is the "
+                "canonical atom length table; the generator-length constants (39 per spend, 5 outer, QUOTE_BYTES 2). Does not decide "
+                "that the serialised block re-parses to the same conditions (CLVM serialisation / back-references).",
+        "design_ref": "DESIGN.md 3/C08",
+        "note": "trusted: clvmr serialiser, interning, run_program",
+        "technique": _T + "sibling agreement (call sequences, role tables) + decision table + constants recomputed from structure",
+    },
+    "C09": {
+        "text": "Decides: additions_and_removals, get_coinspends*_for_trusted_block, SpendBundle::additions and "
+                "get_puzzle_and_solution_for_coin build each coin from the same roles full validation uses (parent, tree hash of the "
+                "puzzle node, parsed amount), scan opcode 51 with the CREATE_COIN argument shapes, apply the hint rule of validated "
+                "conditions (atom of length <= 32, nil = no hint), and return a puzzle/solution only after parent, amount and puzzle "
+                "hash were all compared equal. Does not decide equality on concrete blocks.",
+        "design_ref": "DESIGN.md 3/C09",
+        "note": "trusted: clvm-traits tuple decoding, clvmr, tree_hash_cached; one defect found by this check was repaired (known_findings.json: fixed C09)",
+        "technique": _T + "sibling agreement of role tables + literal tables + must-pass-through equality gates",
+    },
+    "C10": {
+        "text": "Decides for both block builders: every rejecting return after a tentative add passes the matching restore "
+                "(serializer state / allocator checkpoint); the committed fields are written only on accepting paths after the last "
+                "fallible call; the aggregate signature and cost added are the batch's own; the acceptance guard compares "
+                "byte cost + block cost + cost with the limit after the size is known; the bookkeeping constants (20, WRAPPER_VBYTES). "
+                "Does not decide estimate >= final size or output equality.",
+        "design_ref": "DESIGN.md 3/C10",
+        "note": "trusted: clvmr Serializer / Allocator checkpoints",
+        "technique": _T + "acquire/undo pairing as must-pass-through + effect placement on accepting paths + provenance of accumulated values",
+    },
+    "C12": {
+        "text": "Decides: validate_merkle_proof / deserialize_proof accept only after the root comparison, full consumption, the bit-audit "
+                "loop and the depth bound; proof tag constants and payload lengths agree between writers and reader; hash() framing; the two "
+                "hand-duplicated root computations call hash() with the same type/hash signatures under the same case guards and treat the "
+                "single-leaf and empty sets identically; the two wheel entry points have opposite polarity. Does not decide canonicity, "
+                "completeness or soundness proper (inductive arguments over trees).",
+        "design_ref": "DESIGN.md 3/C12",
+        "note": "trusted: SHA-256",
+        "technique": _T + "must-pass-through gates + writer/reader tag tables + sibling agreement of hash-call signatures",
+    },
+    "C16": {
+        "text": "Decides: checked decoders = unchecked decoder + is_valid gate (Ok only if true), parse dispatches on TRUSTED; the G1 "
+                "flag-bit acceptance table (infinity must be exactly 0xc0 || 0..0, compression bit required, zero body rejected); both "
+                "unhardened derivations hash public_key || index (big-endian) and both synthetic derivations take the offset from "
+                "synthetic_offset and add; GROUP_ORDER_BYTES equals the BLS12-381 scalar field order. Does not decide the homomorphism "
+                "laws or G2 canonicity (inside blst).",
+        "design_ref": "DESIGN.md 3/C16",
+        "note": "trusted: blst, num_bigint",
+        "technique": _T + "must-pass-through + accepting-path decision table + hash-input provenance + constant recomputation",
+    },
+    "C19": {
+        "text": "Decides: fast_forward_singleton has one accepting path and on it every refusal gate of the statement was evaluated "
+                "favourably (three parity tests, puzzle-hash equalities, both mod-hash tests against the singleton v1.1 hash, lineage "
+                "proof variant, amount, recomputed parent id, inner puzzle hash, new coin parent); exactly three fields of the decoded "
+                "solution are rewritten, from the stated sources; dedup / fast-forward eligibility follows the mempool flag table for all "
+                "36 condition variants plus new_spend / post_spend / post_process rules; the fingerprint hashes per opcode exactly the "
+                "arguments parse_args reads with a 4-byte length frame, refuses other opcodes, and is computed only for still-eligible "
+                "spends. Does not decide that the rewritten spend runs and emits the same coins.",
+        "design_ref": "DESIGN.md 3/C19",
+        "note": "trusted: clvm-traits singleton types, tree_hash, SHA-256",
+        "technique": _T + "accepting-path fact set vs required gates + store enumeration + flag-effect table extraction + arity table vs spec",
+    },
+    "C20": {
+        "text": "Decides for all ToJsonDict/FromJsonDict impl pairs (about 135 derived, 24 hand-written, as compiled from the derive "
+                "expansion): writer and reader agree on (key literal, field, declared field type) for every field, cover every field, have "
+                "one accepting path (no default for a missing key); newtypes delegate to field 0; enums go through u8 and re-parse; Option "
+                "/ Vec / tuple / array combinators check arity before reading, keep positions and propagate element errors; integer impls "
+                "are extract / into_pyobject of the same type without a cast; Bytes / BytesImpl / Program / BLS readers require the prefix, "
+                "valid hex and the exact length and writers emit the same bytes. Does not decide what pyo3 and Python do.",
+        "design_ref": "DESIGN.md 3/C20",
+        "note": "trusted: pyo3 extract / into_pyobject / get_item / set_item, hex crate",
+        "technique": _T + "writer/reader trio agreement on accepting paths + accepting/rejecting path tables for combinators and byte strings",
+    },
 }
 
 _PENDING = "check not built yet in this round (planned, see DESIGN.md section 3); not claimed until its rules run"
